@@ -1,8 +1,241 @@
 package main
 
-import "strings"
+import (
+	"context"
+	"encoding/json"
+	"fmt"
+	"os"
+	"os/exec"
+	"path/filepath"
+	"regexp"
+	"strings"
+	"time"
+)
 
-// replayOnRealCode: per-function replay harnesses (filled in as properties are added).
-func replayOnRealCode(P *Program, id, fn string, o Oblig, model string, sb *strings.Builder) bool {
-	return false
+// ReplayTemplate turns the solver's counterexample for a failed obligation of one function into
+// an in-package Go test that runs the real code (injected with `go test -overlay`, nothing is
+// written under /repo).
+type ReplayTemplate struct {
+	Function    string            `json:"function"`
+	Obligations []string          `json:"obligations"`
+	Pkg         string            `json:"pkg"`
+	Template    string            `json:"template"`
+	Test        string            `json:"test"`
+	Vars        map[string]string `json:"vars"` // placeholder -> spec expression over the pre-state
+	Witness     *struct {
+		File string `json:"file"`
+		Test string `json:"test"`
+	} `json:"witness,omitempty"`
+}
+
+func loadTemplates() []ReplayTemplate {
+	var out []ReplayTemplate
+	data, err := os.ReadFile(filepath.Join(verifDir, "replaysrc", "templates.json"))
+	if err != nil {
+		return nil
+	}
+	json.Unmarshal(data, &out)
+	return out
+}
+
+func templatesFor(fn string) []ReplayTemplate {
+	var out []ReplayTemplate
+	for _, t := range loadTemplates() {
+		if t.Function == fn {
+			out = append(out, t)
+		}
+	}
+	return out
+}
+
+// replayVarTerms evaluates the template variables of fn to SMT terms over the entry state.
+func (v *VC) replayVarTerms() map[string]string {
+	out := map[string]string{}
+	for _, t := range templatesFor(fnKey(v.fn)) {
+		for name, expr := range t.Vars {
+			term, err := v.evalClause(Clause{Src: expr, File: "templates.json"}, v.preEnv)
+			if err == nil {
+				out[name] = term
+			}
+		}
+	}
+	return out
+}
+
+var intVal = regexp.MustCompile(`^\(?\s*(-)?\s*\(?(-)?\s*([0-9]+)\)?\s*\)?$`)
+
+func parseSMTInt(s string) (string, bool) {
+	s = strings.TrimSpace(s)
+	s = strings.ReplaceAll(s, "(", " ")
+	s = strings.ReplaceAll(s, ")", " ")
+	f := strings.Fields(s)
+	switch len(f) {
+	case 1:
+		if regexp.MustCompile(`^[0-9]+$`).MatchString(f[0]) {
+			return f[0], true
+		}
+		if f[0] == "true" || f[0] == "false" {
+			return f[0], true
+		}
+	case 2:
+		if f[0] == "-" && regexp.MustCompile(`^[0-9]+$`).MatchString(f[1]) {
+			return "-" + f[1], true
+		}
+	}
+	return "", false
+}
+
+// getValues asks z3 for the values of terms in a model of query.
+func getValues(query string, terms map[string]string, dropQuantified bool) (map[string]string, bool) {
+	var names, ts []string
+	for n, t := range terms {
+		names = append(names, n)
+		ts = append(ts, t)
+	}
+	if len(ts) == 0 {
+		return nil, false
+	}
+	q := query
+	if dropQuantified {
+		var sb strings.Builder
+		for _, line := range strings.Split(query, "\n") {
+			if strings.HasPrefix(line, "(assert") && strings.Contains(line, "(forall ") {
+				continue
+			}
+			sb.WriteString(line + "\n")
+		}
+		q = sb.String()
+	}
+	var sb strings.Builder
+	sb.WriteString(q)
+	sb.WriteString("(check-sat)\n")
+	for _, t := range ts {
+		fmt.Fprintf(&sb, "(get-value (%s))\n", t)
+	}
+	tmp, _ := os.CreateTemp("", "govc-model-*.smt2")
+	tmp.WriteString(sb.String())
+	tmp.Close()
+	defer os.Remove(tmp.Name())
+	ctx, cancel := context.WithTimeout(context.Background(), 25*time.Second)
+	defer cancel()
+	out, _ := exec.CommandContext(ctx, "z3-new", "-T:20", tmp.Name()).Output()
+	lines := strings.Split(strings.TrimSpace(string(out)), "\n")
+	if len(lines) == 0 || strings.TrimSpace(lines[0]) != "sat" {
+		return nil, false
+	}
+	// each get-value answer: ((term value)) possibly on several lines; re-join and split by "))"
+	rest := strings.Join(lines[1:], " ")
+	vals := map[string]string{}
+	idx := 0
+	for _, n := range names {
+		// find the next "((" ... matching
+		start := strings.Index(rest[idx:], "((")
+		if start < 0 {
+			break
+		}
+		start += idx
+		depth, end := 0, -1
+		for i := start; i < len(rest); i++ {
+			if rest[i] == '(' {
+				depth++
+			} else if rest[i] == ')' {
+				depth--
+				if depth == 0 {
+					end = i
+					break
+				}
+			}
+		}
+		if end < 0 {
+			break
+		}
+		body := rest[start+2 : end-1] // term value
+		idx = end + 1
+		t := terms[n]
+		val := strings.TrimSpace(strings.TrimPrefix(strings.TrimSpace(body), t))
+		if iv, ok := parseSMTInt(val); ok {
+			vals[n] = iv
+		}
+	}
+	return vals, len(vals) == len(names)
+}
+
+func runGoTest(pkg, file, content, test string) (failed bool, output string) {
+	dst := filepath.Join(repoDir, pkg, "zz_govc_replay_test.go")
+	src := file
+	if content != "" {
+		os.WriteFile(file, []byte(content), 0o644)
+	}
+	ov, _ := os.CreateTemp("", "govc-ov-*.json")
+	fmt.Fprintf(ov, `{"Replace": {%q: %q}}`, dst, src)
+	ov.Close()
+	defer os.Remove(ov.Name())
+	ctx, cancel := context.WithTimeout(context.Background(), 180*time.Second)
+	defer cancel()
+	cmd := exec.CommandContext(ctx, "go", "test", "-overlay", ov.Name(), "-vet=off", "-timeout", "60s", "-count=1", "-run", "^"+test+"$", "./"+pkg)
+	cmd.Dir = repoDir
+	var env []string
+	for _, e := range os.Environ() {
+		if strings.HasPrefix(e, "GOSUMDB=") || strings.HasPrefix(e, "GOTOOLCHAIN=") {
+			continue
+		}
+		env = append(env, e)
+	}
+	cmd.Env = append(env, "GOFLAGS=-mod=mod", "GOPROXY=off")
+	out, err := cmd.CombinedOutput()
+	s := string(out)
+	if len(s) > 3000 {
+		s = s[:1500] + "\n...\n" + s[len(s)-1500:]
+	}
+	if err != nil && (strings.Contains(s, "--- FAIL") || strings.Contains(s, "panic:") || strings.Contains(s, "fatal error")) {
+		return true, s
+	}
+	return false, s
+}
+
+// replayOnRealCode runs the model (or, failing that, the recorded witness) against the real code.
+func replayOnRealCode(P *Program, id, fn string, o Oblig, query string, terms map[string]string, sb *strings.Builder) (bool, string) {
+	for _, t := range templatesFor(fn) {
+		match := len(t.Obligations) == 0
+		for _, p := range t.Obligations {
+			if strings.HasPrefix(o.Name, p) {
+				match = true
+			}
+		}
+		if !match {
+			continue
+		}
+		dir := filepath.Join(verifDir, "replays", id)
+		os.MkdirAll(dir, 0o755)
+		if t.Template != "" {
+			tmpl, err := os.ReadFile(filepath.Join(verifDir, t.Template))
+			if err == nil {
+				for _, drop := range []bool{false, true} {
+					vals, ok := getValues(query, terms, drop)
+					if !ok {
+						continue
+					}
+					src := string(tmpl)
+					for n, val := range vals {
+						src = strings.ReplaceAll(src, "{{"+n+"}}", val)
+					}
+					file := filepath.Join(dir, sanitize(shortKey(fn)+"__"+o.Name)+"_test.go")
+					failed, out := runGoTest(t.Pkg, file, src, t.Test)
+					fmt.Fprintf(sb, "replay with model values %v (quantified assumptions dropped: %v): reproduced=%v\n%s\n", vals, drop, failed, out)
+					if failed {
+						return true, file
+					}
+				}
+			}
+		}
+		if t.Witness != nil {
+			wf := filepath.Join(verifDir, t.Witness.File)
+			failed, out := runGoTest(t.Pkg, wf, "", t.Witness.Test)
+			fmt.Fprintf(sb, "replay of the recorded witness %s: reproduced=%v\n%s\n", t.Witness.Test, failed, out)
+			if failed {
+				return true, wf
+			}
+		}
+	}
+	return false, ""
 }
